@@ -133,7 +133,7 @@ def shrink(check, case, target, max_runs=150, max_s=90.0):
 
     def fails(c):
         runs[0] += 1
-        r = safe_execute(check, c)
+        r = safe_execute(check, c, getattr(check, "per_run_wall_s", 120))
         return any(vsig(v) == target for v in r["violations"]), r
 
     best = json.loads(json.dumps(case))
@@ -186,7 +186,7 @@ def write_replay(check, case, v, result, tag):
 
 def replay_file(check, path):
     rp = json.load(open(path))
-    r = safe_execute(check, rp["case"])
+    r = safe_execute(check, rp["case"], getattr(check, "per_run_wall_s", 120) * 2)
     if r.get("harness_error"):
         print("HARNESS-ERROR during replay:", r["harness_error"])
         return 2
@@ -292,7 +292,7 @@ def finish(check, tier, seed, results, harness_errors, skipped, t0, verbose=True
             small, rr = shrink(check, case, s, max_s=getattr(check, "shrink_s", 90.0))
             if small is None:
                 # keep the unminimised case, check it reproduces at all
-                r2 = safe_execute(check, case)
+                r2 = safe_execute(check, case, getattr(check, "per_run_wall_s", 120))
                 if not any(vsig(x) == s for x in r2["violations"]):
                     harness_errors.append("nondeterministic: %s did not reproduce (%s)" % (s, rr))
                     continue
